@@ -185,7 +185,12 @@ pub fn stub_mk_str(vm: &mut Vm<Host>, v: Value) -> R {
     };
     let r = (|| -> R {
         let s = vm.init_string(&"x".repeat(n))?;
-        Ok(gval(&s))
+        if n % 2 == 1 {
+            // the way the crate's own examples hand an object back: the guard is consumed
+            Ok(Value::Object(s.into_inner()))
+        } else {
+            Ok(gval(&s))
+        }
     })();
     leave(vm, r)
 }
@@ -406,6 +411,7 @@ pub fn collect(
     };
     if panic.is_none() && !aborted {
         ctl.audit_now(&vm.runtime_data, "at run end");
+        ctl.check_no_live_guards("at run end");
     }
     let globals = if observe_globals && panic.is_none() && !aborted {
         read_globals(vm, program)
